@@ -1,6 +1,7 @@
 package rules
 
 import (
+	"go/types"
 	"fmt"
 	"go/token"
 	"strings"
@@ -155,6 +156,12 @@ func RuleKBuildersAll(c *core.Ctx) {
 					if call, ok := ins.(*ssa.Call); ok {
 						for _, callee := range p.Callees(call) {
 							if reachesFunc(p, callee, build, 0) {
+								calls = append(calls, call)
+							}
+						}
+						// the element's pair builder appended to the list that is built after the loop
+						if bi, ok := call.Call.Value.(*ssa.Builtin); ok && bi.Name() == "append" && len(call.Call.Args) == 2 {
+							if sl, ok := call.Call.Args[1].Type().Underlying().(*types.Slice); ok && isNamed(sl.Elem(), p.NamedType(pkgPosting, "Builder")) {
 								calls = append(calls, call)
 							}
 						}
